@@ -65,6 +65,13 @@ def cases(tier, seed, ctx=None):
         for cut in sorted(set([len(stream), hl + 1, hl + len(body) // 2, hl, hl - 1])):
             ops = [[0, stream[:cut]]] + ([[0, stream[cut:]]] if cut < len(stream) else []) + [[1]]
             yield ("proxy", [REQ, [], 0, ops, 0, env, [13]], "binary-body")
+    # bodies larger than any internal block (64 KiB) arriving in one upstream burst, followed at once by the close
+    for size in ((70000, 200000) if tier == "quick" else (65536, 65537, 70000, 200000, 524288)):
+        body = rng.bytes(size)
+        head = b"HTTP/1.1 200 OK\r\nContent-Length: %d" % size
+        stream = head + b"\r\n\r\n" + body
+        yield ("proxy", [REQ, [], 0, [[0, stream], [1]], 0, env, [13]], "big-burst")
+        yield ("proxy", [REQ, [], 0, [[0, stream[:len(head) + 4]], [0, body], [1]], 0, env, [13]], "big-burst")
     # every split point of a short response
     stream = b"HTTP/1.1 201 CREATED\r\nA: 1\r\n\r\nxy"
     for k in range(1, len(stream)):
